@@ -41,6 +41,8 @@ const C: &str = "p::a::C";
 const Q: &str = "p::b::Q";
 const D1: &str = "::d::One";
 const D2: &str = "::d::Two";
+/// a different path with the same final identifier as D1
+const D3: &str = "::e::One";
 const A1: &str = "#[a1]";
 const A2: &str = "#[a2(x)]";
 
@@ -78,6 +80,8 @@ pub fn alphabet() -> Vec<Call> {
             v.push(Call::ForAttrs(p.into(), vec![A1.into()], rec));
         }
     }
+    v.push(Call::ForDerives(P.into(), vec![D3.into()], false));
+    v.push(Call::AllDerives(vec![D3.into()]));
     // the child of P: a type with two ancestors that can both carry recursive registrations
     v.push(Call::ForDerives(C.into(), vec![D2.into()], true));
     v.push(Call::ForAttrs(C.into(), vec![A2.into()], true));
